@@ -222,6 +222,8 @@ def main():
             comp_classes.append(comp_classes[spec["same_as"]])     # a second component of the same class
             continue
         for a in range(nattr):
+            if spec.get("derives_from") is not None and a % 2 == 0:
+                continue        # inherited from the parent component's class (marker or plain value alike)
             d = case["marked"].get("%d,%d" % (i, a))
             target = basens if (spec["inherit"] and a % 2 == 0) else ns
             # every third declared default is a callable used as a plain value (a function as a "do nothing" strategy, a class
@@ -358,6 +360,7 @@ def main():
         "testPeriodic": lambda self: cb(["Periodic", "Test"]),
     }
     split = case["robot_split"]          # components declared on a base robot class come first
+    ticks_ = case["ticks"]
     base_rns = {}
     for j, o in enumerate(owners):
         if o < 0:
@@ -367,6 +370,10 @@ def main():
     base_ann = {}
     for i in range(ncomp):
         (base_ann if i < split else ann)["c%02d" % i] = comp_classes[i]
+    if split > 0 and (ncomp + len(ticks_)) % 2 == 0:
+        # an inherited robot class may define the mode hooks in the base class and leave them alone in the class that runs
+        for h_ in ("disabledPeriodic", "testPeriodic", "teleopInit", "autonomousInit", "robotPeriodic"):
+            base_rns[h_] = rns.pop(h_)
     if split > 0:
         Base = type("BaseRobot", (magicbot.MagicRobot,), dict(base_rns, **{"__annotations__": base_ann, "createObjects": lambda self: setattr(self, "peer", Shared())}))
         rns["__annotations__"] = ann
